@@ -112,6 +112,25 @@ def probe(res, rng, n):
                                            input=dict(family=fam, scale=scale, levels=L, y=y, mu=mu, weight=w),
                                            observed=dict(deviance=dev, deviance_w=devw, V=V, numeric_derivative=num, loglik_gap=gap),
                                            expected=dict(derivative=ana, loglik_gap=dev)))
+    # scale estimate on a re-used distribution object: after a fit the estimate is stored in dist.scale; a later phi() on other data must
+    # still be the Pearson statistic of THAT data (the user did not supply a scale)
+    for fam in ('NormalDist', 'GammaDist', 'InvGaussDist'):
+        d = mk(fam, None, 1.0)
+        for rep in range(2):
+            k = rng.randint(4, 9)
+            ws = np.array([f32(10 ** rng.uniform(-1, 1)) for _ in range(k)])
+            ys = np.array([10 ** rng.uniform(-1, 1) for _ in range(k)])
+            mus = np.array([10 ** rng.uniform(-1, 1) for _ in range(k)])
+            edof = rng.uniform(0.5, 2.5)
+            got = float(d.phi(y=ys, mu=mus, edof=edof, weights=ws))
+            want = float(np.sum(ws * (ys - mus) ** 2 / d.V(mu=mus)) / (k - edof))
+            res.case(('phi-reuse', fam, rep))
+            if not math.isclose(got, want, rel_tol=1e-12):
+                res.violations.append(dict(what='scale estimate of a re-used distribution object is not the weighted Pearson statistic / (n - edof) of the data at hand',
+                                           finding=None, input=dict(family=fam, call=rep + 1, y=ys.tolist(), mu=mus.tolist(), weights=ws.tolist(), edof=edof,
+                                                                    stored_scale_before_call=None if d.scale is None else float(d.scale)),
+                                           observed=got, expected=want))
+            d.scale = got       # what _estimate_model_statistics does after every fit
     # sampler moments: supporting statistical test (not a proof): 40000 draws, 7-sigma concentration bound on mean and variance
     nprs = np.random.RandomState(rng.randrange(1 << 30))
     state = np.random.get_state()
